@@ -9,7 +9,7 @@
 
 namespace engine
 {
-Uci::Uci() : search(nullptr), position(), quit(false), options(), polyglot(), polyglot_sample_random_move(true)
+Uci::Uci() : search(nullptr), position(), quit(false), options(), polyglot(), polyglot_sample_random_move(true), searchmoves_given(false)
 {
     options["Polyglot Book"] = UciOption("", [this](std::string path) {
         if (path == "")
@@ -246,7 +246,8 @@ void start_searching(Uci* uci)
 {
     VERIF_THREAD_SCOPE();
     uint64_t key = PolyglotBook::hash(uci->position);
-    if (uci->polyglot.contains(key))
+    // `go ... searchmoves` restricts the answer to the listed moves: the book does not know about that
+    if (!uci->searchmoves_given && uci->polyglot.contains(key))
     {
         Move move = uci->polyglot_sample_random_move 
             ? uci->polyglot.get_random_move(key, uci->position)
@@ -295,6 +296,7 @@ bool Uci::go_command(std::istringstream& istream)
     }
 
     search = std::make_shared<Search>(position, limits, scorer, ttable);
+    searchmoves_given = limits.searchmovesnum > 0;
 
     VERIF_SPAWN();
     std::thread search_thread(start_searching, this);
